@@ -204,6 +204,14 @@ def two_dict_scenario(rng, s, keys, horizon, hist1, pid0):
 
 def check_c10(chk, rng):
     quick = chk.tier == "quick"
+    # level B of the keyed parent's scheduling (lazy heap of child wake-ups, sparse candidate set, pull, drain, re-arm):
+    # exhaustive, and each named fault must be rejected
+    res = hg.tlc("MapSched", "MapSched.none.cfg" if quick else "MapSched.thorough.cfg", timeout=1800, workers=4)
+    if res.violation:
+        raise hg.MachineryError("MapSched.tla violates its own invariants:\n" + res.violation)
+    chk.add_tlc(res, "MapSched-exhaustive")
+    for fault, inv in (("lt", "NoLostWakeup"), ("back", "ParentCovers"), ("nopull", "ParentCovers"), ("noobserve", "NoLostWakeup")):
+        chk.add_tlc(hg.expect_violation("MapSched", "MapSched.%s.cfg" % fault, inv, timeout=600, workers=2), "MapSched-fault:" + fault)
     nscn = 160 if quick else 2500
     scns, metas, progs = [], [], []
     pid = 1
